@@ -107,7 +107,7 @@ class RefDecoder:
             elif b & 0x20:
                 if seen_field: raise HpackError('size update after field')
                 sz, pos = dec_int(data, pos, 5)
-                if sz > self.limit: raise HpackError('size update above limit')
+                if self.limit is not None and sz > self.limit: raise HpackError('size update above limit')
                 self.max_size = sz; self._evict(); updates.append(sz)
             else:
                 never = bool(b & 0x10)
